@@ -235,8 +235,44 @@ func GenRuleTable(outDir string) error {
 	}
 	fmt.Fprintf(&b, "Definition rule_table : list rule_entry := [\n  %s\n].\n", strings.Join(items, ";\n  "))
 	fmt.Fprintf(&b, "Definition newest_version : version := %s.\n", newest.coq())
+	var rd []string
+	for _, r := range versionReaders() {
+		rd = append(rd, coqfmt.Str(r))
+	}
+	fmt.Fprintf(&b, "(* hand-written checkers whose source reads the configured Go version (any selector .GoVersion) *)\nDefinition handwritten_version_readers : list string := %s.\n", coqfmt.List(rd))
 	common.WriteFile(filepath.Join(outDir, "RuleTable.v"), b.String())
 	return nil
+}
+
+// versionReaders lists the hand-written checkers (checkers/*_checker.go, the two rule-engine adapters excluded: they
+// hand the version to ruleguard, whose gates are in the rule table) that mention the configured Go version.
+func versionReaders() []string {
+	files, _ := filepath.Glob(filepath.Join(common.RepoDir, "checkers", "*_checker.go"))
+	sort.Strings(files)
+	var out []string
+	for _, fn := range files {
+		name := strings.TrimSuffix(filepath.Base(fn), "_checker.go")
+		if name == "ruleguard" {
+			continue
+		}
+		f, err := parser.ParseFile(token.NewFileSet(), fn, nil, 0)
+		if err != nil {
+			continue
+		}
+		reads := false
+		ast.Inspect(f, func(n ast.Node) bool {
+			if sel, ok := n.(*ast.SelectorExpr); ok && sel.Sel.Name == "GoVersion" {
+				if id, isPkg := sel.X.(*ast.Ident); !(isPkg && id.Name == "linter") { // linter.GoVersion is the type
+					reads = true
+				}
+			}
+			return !reads
+		})
+		if reads {
+			out = append(out, name)
+		}
+	}
+	return out
 }
 
 func versionsToTry(newest version) []string {
@@ -469,11 +505,67 @@ func Run(tier string, seed int64, outDir string) *common.Meta {
 			}
 		}
 	}
+	// "no version configured = newest version", observed: every checker that reads the version (hand-written readers found
+	// in the source, gated rule groups from the executed IR) reports the same on its own examples with no version, with the
+	// newest known version and with versions beyond it
+	{
+		names := map[string]bool{}
+		for _, r := range versionReaders() {
+			names[r] = true
+		}
+		for g := range gated {
+			names[g] = true
+		}
+		var sorted []string
+		for n := range names {
+			sorted = append(sorted, n)
+		}
+		sort.Strings(sorted)
+		cmpVersions := []string{"", fmt.Sprintf("%d.%d", newest.maj, newest.min), fmt.Sprintf("%d.%d", newest.maj, newest.min+1), fmt.Sprintf("go%d.%d", newest.maj, newest.min), "1.99"}
+		for _, g := range sorted {
+			dir := filepath.Join(common.RepoDir, "checkers", "testdata", g)
+			if _, err := os.Stat(dir); err != nil {
+				continue
+			}
+			fset, pkgs, err := load.Packages(filepath.Join(common.RepoDir, "checkers"), env, "./testdata/"+g)
+			if err != nil || len(pkgs) == 0 {
+				continue
+			}
+			var ref []string
+			for i, vs := range cmpVersions {
+				ctx := load.NewContext(fset)
+				ctx.SetGoVersion(vs)
+				cs, err := load.Checkers(ctx, map[string]bool{g: true})
+				if err != nil || len(cs) == 0 {
+					break
+				}
+				var got []string
+				for _, pkg := range pkgs {
+					load.CheckPackage(ctx, cs, pkg, func(_ string, _ *linter.Checker, ws []linter.Warning) {
+						for _, w := range ws {
+							got = append(got, fmt.Sprintf("%s: %s", fset.Position(w.Pos), w.Text))
+						}
+					})
+				}
+				sort.Strings(got)
+				evals++
+				if i == 0 {
+					ref = got
+					continue
+				}
+				if strings.Join(got, "\n") != strings.Join(ref, "\n") {
+					meta.Fail("C15/"+g+"/unset-version-differs-from-newest", fmt.Sprintf("checker %s on its own examples: %d diagnostics with no version configured, %d with -go=%s (newest known Go is %d.%d)", g, len(ref), len(got), vs, newest.maj, newest.min),
+						map[string]interface{}{"version": vs, "only_unset": diffLines(ref, got), "only_versioned": diffLines(got, ref)})
+					break
+				}
+			}
+		}
+	}
 	// the same on a directed target package holding every receiver/operand type variant of each gated rule:
 	// a recommendation observed at version V must exist in V (oracle only; which variant a rule covers is
 	// the rule author's choice, so no firing pattern is demanded)
 	{
-		tdir := "/verif/corpus/c15/targets"
+		tdir := filepath.Join(common.VerifRoot(), "corpus", "c15", "targets")
 		fset, pkgs, err := load.Packages(tdir, append(env, "GOFLAGS=-mod=mod"), ".")
 		if err != nil || len(pkgs) == 0 {
 			meta.Notes = append(meta.Notes, fmt.Sprintf("corpus/c15/targets not loaded: %v", err))
@@ -605,7 +697,7 @@ Definition cases : list (version * bool) := [
 }
 
 func dynamicRules(meta *common.Meta, versions []string, outDir string) (lines, idx []string) {
-	rules := "/verif/corpus/c15/rules.go"
+	rules := filepath.Join(common.VerifRoot(), "corpus", "c15", "rules.go")
 	if _, err := os.Stat(rules); err != nil {
 		meta.TieBroken = append(meta.TieBroken, "corpus/c15/rules.go missing")
 		return
@@ -767,4 +859,19 @@ func endToEnd(meta *common.Meta, outDir string) int {
 		}
 	}
 	return runs
+}
+
+// diffLines returns the lines of a that are not in b (first few).
+func diffLines(a, b []string) []string {
+	in := map[string]bool{}
+	for _, x := range b {
+		in[x] = true
+	}
+	var out []string
+	for _, x := range a {
+		if !in[x] && len(out) < 5 {
+			out = append(out, x)
+		}
+	}
+	return out
 }
